@@ -38,7 +38,8 @@ inductive Res where
 structure CallOut where
   res : Res
   exec : Bool       -- the function body ran (to completion) inside this call
-  started : Bool    -- this call created a background refresh task (it runs until a later `done`)
+  started : Bool    -- this call created a refresh task (`asyncio.create_task`); with `exec = false` it is still
+                    -- in flight when the call returns and runs until a later `done`
   deriving DecidableEq, Repr
 
 /-- operations of a history -/
@@ -96,6 +97,9 @@ def trace (step : σ → ο → σ × α) : σ → List ο → List (σ × ο ×
 def final (step : σ → ο → σ × α) : σ → List ο → σ
   | s, [] => s
   | s, o :: os => final step (step s o).1 os
+
+/-- just the answers of a recorded history -/
+def answers (tr : List (σ × ο × α)) : List α := tr.map (·.2.2)
 
 end run
 end CashewsVerif.Decor
